@@ -398,6 +398,20 @@ Fixpoint trace_from (fuel : nat) (s : state) (sched : list tid) : list tid :=
 Definition trace (cfgs : list cfg) (prog : list op) (sched : list tid) : list tid :=
   trace_from (fuel_for cfgs prog sched) (init cfgs prog) sched.
 
+(* "sequential hand-off": no recorder step is scheduled while the writer is between write_to_disk.clear() and
+   write_finished.set() *)
+Definition in_window (s : state) : bool := match s_wpc s with W_SetWF => true | _ => false end.
+Fixpoint window_free_from (fuel : nat) (s : state) (sched : list tid) : bool :=
+  match fuel with
+  | O => true
+  | S k =>
+    if crashed s then true else
+    match pick s (match sched with t :: _ => t | [] => R end) with
+    | Some t => negb (in_window s && tid_eqb t R) && window_free_from k (step s t) (tl sched)
+    | None => true
+    end
+  end.
+
 Definition finished (s : state) : bool :=
   match s_rpc s, s_wpc s with R_Done, W_Done => true | _, _ => false end.
 
